@@ -192,10 +192,15 @@ Definition papply (p : pfs) (e : eff) : pfs :=
       | Some i => if trunc then mkPfs (upd_nth (p_inodes p) i (fun v => v ++ [FEmpty])) (p_ns p) else p
       | None => mkPfs (p_inodes p ++ [[FEmpty]]) (p_ns p ++ [ns_set ns f (length (p_inodes p))])
       end
-  | EAppend f _ | EWriteFile f _ | ETrunc f _ =>
+  | EAppend f _ | ETrunc f _ =>
       match ns_get ns f with
       | Some i => mkPfs (upd_nth (p_inodes p) i (fun v => v ++ [content_after (cur_content p i) f e])) (p_ns p)
       | None => p
+      end
+  | EWriteFile f c =>
+      match ns_get ns f with
+      | Some i => mkPfs (upd_nth (p_inodes p) i (fun v => v ++ [c])) (p_ns p)
+      | None => mkPfs (p_inodes p ++ [[c]]) (p_ns p ++ [ns_set ns f (length (p_inodes p))])   (* as apply_eff: the write creates the file *)
       end
   | EFsync f | EFsyncData f =>
       match ns_get ns f with
@@ -379,3 +384,26 @@ Definition check_c01 (oracles : bool) (c : cfg) (ops : list op) (obs0 : list eff
    start_mismatch c ops starts,
    (if oracles then kill_bad c ops else []),
    (if oracles then match c_fsync c with FsAlways => power_bad c ops | _ => [] end else [])).
+
+(* The recorded class under POWER loss: the frames of a batch_delete of >= 2 live ids are un-synced until
+   its fsync completes, so any prefix of them may survive: crash index 1 .. number of frames (inclusive:
+   all frames written, fsync not yet done). *)
+Definition known_power_op (s : state) (o : op) (k : nat) : bool :=
+  match o with
+  | OBatchDelete ids =>
+      let live := filter (mem (st_store s)) ids in
+      Nat.leb 2 (length live) && Nat.leb 1 k && Nat.leb k (length live)
+  | _ => false
+  end.
+
+Fixpoint known_power_run (c : cfg) (s : state) (ops : list op) (n : nat) : bool :=
+  match ops with
+  | [] => false
+  | o :: r =>
+      let '(s', _, effs) := step c s o in
+      if Nat.leb n (length effs) then known_power_op s o n
+      else known_power_run c s' r (n - length effs)
+  end.
+
+Definition known_power (c : cfg) (ops : list op) (n : nat) : bool :=
+  if Nat.leb n (length init_effs) then false else known_power_run c (init c) ops (n - length init_effs).
